@@ -9,7 +9,7 @@ use nexrad_decode::messages::digital_radar_data as drd;
 use nexrad_model::data::{MomentData, MomentValue, Radial};
 use proptest::prelude::*;
 use serde::{Deserialize, Serialize};
-use serde_json::{json, Value};
+use serde_json::Value;
 
 /// Builds the decode-level message directly from public fields (no decoder involved).
 pub fn build_message(s: &DrdSpec) -> drd::Message {
